@@ -172,8 +172,6 @@ func main() {
 	mux.HandleFunc("/debug/pprof/capture", func(w http.ResponseWriter, r *http.Request) {
 		w.Write(pbuf.Bytes())
 	})
-	go http.ListenAndServe(listen, log(true, mux))
-
 	if profile == "cpu" {
 		check(pprof.StartCPUProfile(&pbuf))
 	}
@@ -195,6 +193,9 @@ func main() {
 		fmt.Printf("startup error: %s\n", err)
 		os.Exit(1)
 	}
+	// serve the dashboard only once the first generation of tasks is running:
+	// a restart requested earlier could overtake it and block every later restart
+	go http.ListenAndServe(listen, log(true, mux))
 
 	switch profile {
 	case "cpu":
